@@ -23,10 +23,10 @@ let check (prop : ostring) cfg events (obs : Sx.t) : bool * ostring =
   let tr = OList.combine events os in
   let fails : (nat * z) list =
     match prop with
-    | "C01" -> c01_check os
+    | "C01" -> c01_check os @ c07_cause_check cfg tr
     | "C04" -> c04_check cfg tr
     | "C06" -> c06_check cfg tr
-    | "C07" -> c07_check cfg tr
+    | "C07" -> c07_check cfg tr @ c07_cause_check cfg tr
     | "C08" -> c08_check tr
     | "C20" -> c20_check cfg tr
     | "C03" -> c03_check cfg tr
